@@ -125,7 +125,7 @@ def detect(tag, props, inplace=False):
         if inplace:
             sh(["git", "-C", "/repo", "checkout", "--", "."])
     rec = {"tag": tag, "repo_head": head(), "verif_commit": subprocess.check_output(["git", "-C", VERIF, "rev-parse", "--short", "HEAD"], text=True).strip(),
-           "mode": "inplace" if inplace else "scratch-worktree", "results": results,
+           "mode": "inplace" if inplace else "scratch-worktree", "verif_seed": int(os.environ.get("VERIF_SEED", "1")), "results": results,
            "detected_by": sorted(p for p, r in results.items() if r["rc"] == 1)}
     path = os.path.join(d, "detection.json")
     old = json.load(open(path)) if os.path.exists(path) else {"runs": []}
